@@ -3,7 +3,6 @@ package formatter
 import (
 	"fmt"
 	"strings"
-	"unicode"
 
 	"golang.org/x/net/html"
 	"golang.org/x/net/html/atom"
@@ -327,7 +326,7 @@ func (f *Formatter) formatNode(n *html.Node, buf *strings.Builder, depth int) {
 		buf.WriteString("\n")
 
 	case html.TextNode:
-		text := strings.TrimSpace(n.Data)
+		text := trimSpaceHTML(n.Data)
 		if text != "" {
 			buf.WriteString(indent)
 			buf.WriteString(escapeText(text))
@@ -513,8 +512,16 @@ func (f *Formatter) renderInlineChildren(n *html.Node) string {
 			}
 		}
 	}
-	return strings.TrimSpace(b.String())
+	return trimSpaceHTML(b.String())
 }
+
+// HTML white space is ASCII white space. A no-break space (&nbsp;) is a
+// character of the text: it is neither trimmed nor collapsed.
+const htmlSpace = " \t\n\r\f"
+
+func isSpaceHTML(r rune) bool { return strings.ContainsRune(htmlSpace, r) }
+
+func trimSpaceHTML(s string) string { return strings.Trim(s, htmlSpace) }
 
 // escapeText escapes HTML-significant characters (&, <, >) in text content.
 // Content inside {{ }} template expressions is preserved as-is to avoid
@@ -531,6 +538,12 @@ func escapeText(s string) string {
 				i += 2 + end + 2
 				continue
 			}
+		}
+		if strings.HasPrefix(s[i:], "\u00a0") {
+			// a no-break space stays visible in the source
+			b.WriteString("&nbsp;")
+			i += len("\u00a0")
+			continue
 		}
 		switch s[i] {
 		case '&':
@@ -591,7 +604,7 @@ func trimRawContent(s string) string {
 // normalizeInlineText collapses whitespace in inline text while preserving
 // boundary spaces needed between inline elements and text.
 func normalizeInlineText(s string) string {
-	trimmed := strings.TrimSpace(s)
+	trimmed := trimSpaceHTML(s)
 	if trimmed == "" {
 		// Whitespace-only text between inline elements: preserve as single space
 		if len(s) > 0 {
@@ -601,17 +614,17 @@ func normalizeInlineText(s string) string {
 	}
 
 	// Collapse internal whitespace runs to single spaces
-	fields := strings.Fields(trimmed)
+	fields := strings.FieldsFunc(trimmed, isSpaceHTML)
 	out := strings.Join(fields, " ")
 
 	// Preserve leading space if original had one (boundary between elements)
 	runes := []rune(s)
-	if len(runes) > 0 && unicode.IsSpace(runes[0]) {
+	if len(runes) > 0 && isSpaceHTML(runes[0]) {
 		out = " " + out
 	}
 
 	// Preserve trailing space if original had one
-	if len(runes) > 0 && unicode.IsSpace(runes[len(runes)-1]) {
+	if len(runes) > 0 && isSpaceHTML(runes[len(runes)-1]) {
 		out = out + " "
 	}
 
@@ -623,7 +636,7 @@ func (f *Formatter) isIgnorableWhitespace(n *html.Node) bool {
 	if n.Type != html.TextNode {
 		return false
 	}
-	return strings.TrimSpace(n.Data) == ""
+	return trimSpaceHTML(n.Data) == ""
 }
 
 // renderOpenTag renders an opening tag with attributes.
@@ -657,13 +670,16 @@ func (f *Formatter) renderOpenTag(n *html.Node) string {
 // attribute value: the quote itself, and an ampersand that could start a
 // character reference. Operators such as && stay readable.
 func escapeAttr(s string) string {
-	if !strings.ContainsAny(s, "\"&") {
+	if !strings.ContainsAny(s, "\"&\u00a0") {
 		return s
 	}
 	var b strings.Builder
 	b.Grow(len(s) + 8)
 	for i := 0; i < len(s); i++ {
 		switch c := s[i]; {
+		case strings.HasPrefix(s[i:], "\u00a0"):
+			b.WriteString("&nbsp;")
+			i += len("\u00a0") - 1
 		case c == '"':
 			b.WriteString("&quot;")
 		case c == '&' && i+1 < len(s) && (s[i+1] == '#' || (s[i+1] >= 'a' && s[i+1] <= 'z') || (s[i+1] >= 'A' && s[i+1] <= 'Z') || (s[i+1] >= '0' && s[i+1] <= '9')):
